@@ -53,6 +53,23 @@ func c20LoadedStreams() [][]byte {
 	return c20Streams
 }
 
+// c20PerLoadAlloc: for a loader case that makes several loader CALLS per input (GRL: a fresh knowledge base and two
+// loaded ones), the largest allocation of a single call - the bound of the property is per call.
+var c20PerLoadAlloc uint64
+
+func c20Measured(f func()) {
+	var ms runtime.MemStats
+	runtime.ReadMemStats(&ms)
+	before := ms.TotalAlloc
+	defer func() {
+		runtime.ReadMemStats(&ms)
+		if d := ms.TotalAlloc - before; d > c20PerLoadAlloc {
+			c20PerLoadAlloc = d
+		}
+	}()
+	f()
+}
+
 func c20Load(loader int, data []byte) (status string) {
 	defer func() {
 		if r := recover(); r != nil {
@@ -63,13 +80,17 @@ func c20Load(loader int, data []byte) (status string) {
 	switch loader {
 	case c20GRL:
 		lib := ast.NewKnowledgeLibrary()
-		err = builder.NewRuleBuilder(lib).BuildRuleFromResource("KB", "1", pkg.NewBytesResource(data))
+		c20Measured(func() {
+			err = builder.NewRuleBuilder(lib).BuildRuleFromResource("KB", "1", pkg.NewBytesResource(data))
+		})
 		// the same text built ONTO knowledge bases that came out of the binary loader (one without any variable:
 		// its working-memory sections are empty; one with variables)
 		for _, stream := range c20LoadedStreams() {
 			l2 := ast.NewKnowledgeLibrary()
 			if _, lerr := l2.LoadKnowledgeBaseFromReader(bytes.NewReader(stream), true); lerr == nil {
-				_ = builder.NewRuleBuilder(l2).BuildRuleFromResource("KB", "1", pkg.NewBytesResource(data))
+				c20Measured(func() {
+					_ = builder.NewRuleBuilder(l2).BuildRuleFromResource("KB", "1", pkg.NewBytesResource(data))
+				})
 			}
 		}
 	case c20JSONRule:
@@ -113,10 +134,15 @@ func C20Worker() {
 		runtime.ReadMemStats(&ms)
 		before := ms.TotalAlloc
 		t0 := time.Now()
+		c20PerLoadAlloc = 0
 		st := c20Load(loader, data)
 		dur := time.Since(t0)
 		runtime.ReadMemStats(&ms)
-		fmt.Fprintf(out, "R %d %d %d %s\n", idx, ms.TotalAlloc-before, dur.Microseconds(), st)
+		alloc := ms.TotalAlloc - before
+		if c20PerLoadAlloc > 0 {
+			alloc = c20PerLoadAlloc // several loader calls were made for this input: the largest single one
+		}
+		fmt.Fprintf(out, "R %d %d %d %s\n", idx, alloc, dur.Microseconds(), st)
 		out.Flush()
 	}
 }
@@ -663,7 +689,7 @@ func C20(rep *ev.Reporter, tier string) {
 		rep.Exhaustive = false
 		rep.Coverage["caps_hit"] = fmt.Sprintf("time budget: %d of %d inputs run", ran, total)
 	}
-	rep.Coverage["rule"] = "four loaders (GRL text via the builder - into a fresh knowledge base and onto two knowledge bases that came out of the binary loader, one of them without any variable -, JSON rule via JSONResource+builder, JSON fact via DataContext.AddJSON, binary stream via LoadKnowledgeBaseFromReader), bounded-exhaustive input spaces, no sampling: every byte string of length <= 2 and every length-3 string over a 24-byte structural alphabet; for each valid seed every single-point mutation (every bit flip, every byte set to 00/7f/80/ff, truncation at every offset), every field start of a binary seed (boundaries from a tracing writer) overwritten with 13 boundary values, every node reference (AstID text) of a binary seed replaced by every other id of the stream (dangling, duplicated and cyclic references), splices of seed pairs, boundary numbers in every numeric position, every binary operator between every pair of 12 literal operands (zero in every spelling) in conditions and actions, every single byte of two multi-rule documents (saliences, descriptions, constants beyond 32 / near 64 bits after the damaged place) deleted or blanked, nesting depth 10..2000 (brackets, negations, operator chains, statement lists, and every recursive atom production - selector, member, method call and their mixes - repeated on every kind of head: variable, call, string constant, bare name; nested selectors and call arguments - each shape at depths 12, 16, 22 with a growth oracle: allocation at depth 16 at most 4x that at depth 12); for the JSON loaders every string value of a seed extended at either end by each of 18 tails (CR, VT, FF, NBSP, line separator, repeated ';', comment openers, NUL, backslash) and every value of a seed (at every path) replaced by each of 11 alien values (null, true, numbers, empty and null-holding containers, 1e999) and every token string of length <= 4 over a 13-token JSON alphabet. Each input runs in a child process under RLIMIT_AS (ulimit -v 4 GiB): the worker must survive (no escaped panic, no runtime abort), return a value or an error, allocate at most 8 MiB + 2048 bytes per input byte (runtime.MemStats.TotalAlloc delta) and finish within the hang horizon. Every input is non-trivial (it exercises a loader end to end)."
+	rep.Coverage["rule"] = "four loaders (GRL text via the builder - into a fresh knowledge base and onto two knowledge bases that came out of the binary loader, one of them without any variable -, JSON rule via JSONResource+builder, JSON fact via DataContext.AddJSON, binary stream via LoadKnowledgeBaseFromReader), bounded-exhaustive input spaces, no sampling: every byte string of length <= 2 and every length-3 string over a 24-byte structural alphabet; for each valid seed every single-point mutation (every bit flip, every byte set to 00/7f/80/ff, truncation at every offset), every field start of a binary seed (boundaries from a tracing writer) overwritten with 13 boundary values, every node reference (AstID text) of a binary seed replaced by every other id of the stream (dangling, duplicated and cyclic references), splices of seed pairs, boundary numbers in every numeric position, every binary operator between every pair of 12 literal operands (zero in every spelling) in conditions and actions, every single byte of two multi-rule documents (saliences, descriptions, constants beyond 32 / near 64 bits after the damaged place) deleted or blanked, nesting depth 10..2000 (brackets, negations, operator chains, statement lists, and every recursive atom production - selector, member, method call and their mixes - repeated on every kind of head: variable, call, string constant, bare name; nested selectors and call arguments - each shape at depths 12, 16, 22 with a growth oracle: allocation at depth 16 at most 4x that at depth 12); for the JSON loaders every string value of a seed extended at either end by each of 18 tails (CR, VT, FF, NBSP, line separator, repeated ';', comment openers, NUL, backslash) and every value of a seed (at every path) replaced by each of 11 alien values (null, true, numbers, empty and null-holding containers, 1e999) and every token string of length <= 4 over a 13-token JSON alphabet. Each input runs in a child process under RLIMIT_AS (ulimit -v 4 GiB): the worker must survive (no escaped panic, no runtime abort), return a value or an error, allocate at most 8 MiB + 2048 bytes per input byte per loader call (runtime.MemStats.TotalAlloc delta; a GRL input makes three builder calls, the largest counts) and finish within the hang horizon. Every input is non-trivial (it exercises a loader end to end)."
 	rep.Assumptions = append(rep.Assumptions, "uniformly random long inputs are sampling and outside this family; hang detection uses a wall clock (30 s for inputs that take microseconds, confirmed twice in isolation)")
 }
 
